@@ -135,8 +135,10 @@ def handleConv (inp out : List String) : String :=
             f == rectToPolygonFrom r && t == rectToPolygon r &&
             l == (rectToLines r).flatMap (fun (u, v) => [u, v]))
         | .triangle a b c =>
-          let p : P (List Pt) := do lit "poly"; pts
-          (P.run p rest).map (fun t => t == triangleToPolygon a b c)
+          let p : P (Nat × List Pt × Nat × List Pt) := do
+            lit "poly"; let n1 ← nat; let t1 ← pts; lit "topoly"; let n2 ← nat; let t2 ← pts; pure (n1, t1, n2, t2)
+          (P.run p rest).map (fun (n1, t1, n2, t2) =>
+            n1 == 0 && n2 == 0 && t1 == triangleToPolygon a b c && t2 == triangleToPolygon a b c)
         | .line a b =>
           let p : P (List Pt) := do lit "ls"; pts
           (P.run p rest).map (fun t => t == lineToLineString a b)
